@@ -29,6 +29,28 @@ CLAIMS = {
             "must-pass-through + decision tables + polynomial deltas + purity", "5"),
     "C09": ("Decides the two gates, the caps and the interleaving: the order phase is control-dependent on the placement switch and is the only route to submit_orders/_add_order/_cancel_order, every acceptance is followed by a matching round on the same market iff the session's execution switch is on, the switches have an owner allowlist and the halt rule may only restore the session it suspended itself (typestate on a suspension marker), cap comparators in normal form with the test before each consultation, rate gate normal form. Probabilities are not decided.",
             "guard dominance + who-may-write/call + typestate + comparator normal forms", "5"),
+    "C10": ("Decides exactly-one sink per record class (package-wide table of logger sinks by the record classes that can flow into them; one write per created record iff a logger is attached; receivers of returned records never write them again), forwarding of every expiry record, field-copy agreement of the four records and their constructors, order preservation in the logger, exhaustive dispatch over all Log subclasses, and begin/end bracketing of simulation, sessions and market steps.",
+            "interprocedural sink table + field-copy agreement + dispatch exhaustiveness + bracketing sequences", "5"),
+    "C11": ("Decides that in all four handling blocks (order/cancel x normal/high-frequency) the owner looked up from the order's own agent_id is told exactly once with the market's record before the after-hook, that each fill's buyer and seller are told once each after the whole-round holdings update, and that nothing else in pams invokes the callbacks.",
+            "exactly-once / provenance on path summaries + who-may-call", "5"),
+    "C12": ("Decides history preservation and continuation: regeneration keeps prices[: G+1], continues from prices[G] and advances G by the generated length; every parameter setter and the shock move G on every normal path; writers of G and prices are allowlisted. Necessary conditions only for positivity (validation table, level x exp form) and for the return transform (mirrored correlation cells, vol*corr*vol, lower Cholesky from the left, per-row drift, restacking). That log-returns HAVE the configured mean/deviation/correlation is distributional and NOT decided.",
+            "slice/index identities + all-paths setter rule + factor-structure matching (necessary conditions)", "5"),
+    "C13": ("Decides the hook table: registration key, table slots, trigger and handler agree for all nine (type, when) rows; every trigger takes hooks[None] ++ hooks[time] with the tabulated time source and calls each selected hook once (market triggers under the class/instance filter, whose predicate table is checked in 16 worlds); the run loop calls each trigger once per occurrence in the tabulated order and nobody else does; duplicate registration is rejected first, a time listed twice enters a hook once, EventHook validation table (192 worlds); each event's hooks are registered once for that very event (closure-capture check).",
+            "writer/reader table agreement + decision tables + ordering on path summaries + who-may-call", "5"),
+    "C14": ("Decides hook placement and window of both shocks (trigger = session start + offset; window comprehension; target-instance filter; nothing when disabled), the overridden fields and once-flag typestate of the order-mistake shock, and the target-filter discipline for every event class (effects only after a decision that the occurrence's market is a target). The shock's own effect on the fundamental series is the rule shared with C12.",
+            "hook-declaration extraction + guard dominance (target filter) + once-flag typestate + polynomial forms", "5"),
+    "C15": ("Decides the all-times order-before hook, the clamp shape min(max(p, p0(1-r)), p0(1+r)) with p0 the order's own market price at time 0 (either nesting; pass-through only under the in-band decision), market orders returned before arithmetic, the handler writing exactly the helper's result, the target filter, and (shared with C13) that the hook precedes acceptance in both phases. The 'band widened by one tick' corollary follows from C01 + C19 and is argued, not checked.",
+            "clamp shape by polynomial normal forms + guard dominance + ordering", "5"),
+    "C16": ("Decides the first sentence (running test dominates every effect of the only fill routine; fills are created nowhere else). Necessary conditions for halt/resume: comparator normal forms, effects of a halt, per-target step-begin hooks, no running test on placement/cancel paths, the after-execution hook reaching the rule in both phases (shared with C13) and the suspension-marker typestate (shared with C09). Run-level timing is NOT decided.",
+            "guard dominance + comparator normal forms + typestate", "5"),
+    "C17": ("Decides structurally: both index computations are sum(getter(time) x shares)/sum(shares) over the components with one weight term, current time substituted only for None, getters forward time, components enter only through the validating method (duplicate and missing-shares tests dominate the append; single writer), and (shared with C06) index markets are stepped after their components with time+1.",
+            "accumulator shape on loop summaries + guard dominance + who-may-write", "5"),
+    "C18": ("Decides the inheritance loop (copy, missing-parent and cycle errors dominate the merge, nearest definition wins by dict(parent_items, **accumulated)), count agreement between naming and iteration on every branch of both generators, single running id counter, duplicate guards of the three registries, accessible markets = union of listed groups, the JsonRandom dispatch table and affine uniform draw, legacy-key agreement in Session.setup, and class lookup with exactly-one-match. Distribution supports beyond sign/affine shape are not decided.",
+            "loop-structure matching + polynomial count agreement + dispatch table + sibling agreement", "5"),
+    "C19": ("Decides over the reals: the price is rewritten exactly when it is an off-grid limit price, buy -> floor and sell -> ceil through the helper chain (inlined), the result is that level times the same tick size, and rounding precedes numbering, insertion and logging. The '< one tick' magnitude under binary floating point is NOT decided.",
+            "control dependence + direction table through inlined helpers + product form", "5"),
+    "C20": ("Decides well-formedness (own id, kind/price) at all 11 construction sites, that an access test on the very market dominates every construction (or setup rejects the target), FCN direction (strict comparators, one order per active mode) and fixed-margin quotes E(1-k)/E(1+k), market-maker symmetry with m = fundamental x spread / 2, the arbitrage precondition/direction/volume table and the market-share agent's single delegation on an accessible market. The numeric expected-return formula is NOT decided.",
+            "construction-site lint + guard dominance + direction tables + polynomial forms", "5"),
 }
 TECH_DEFAULT = "AST path summaries, call graph and writer sets"
 
